@@ -89,7 +89,7 @@ func buildMultiset(c *run.Ctx, r *rand.Rand, mi int) (*multiset, error) {
 		if err != nil {
 			return nil, fmt.Errorf("member %d rejected by the %s parser: %v", d, protoShort(rq.Proto), err)
 		}
-		ms.members = append(ms.members, &member{pc: pc, pd: pd, types: typeNames(&pc), proto: rq.Proto})
+		ms.members = append(ms.members, &member{pc: pc, pd: pd, types: typeNames(&pc), proto: rq.Proto, multiLine: s.MultiLine})
 	}
 	for d := 0; d < k; d++ {
 		ms.order = append(ms.order, d)
@@ -167,6 +167,16 @@ func childMerge(c *run.Ctx, cfg childCfg) {
 			c.Undecided("merge input: " + clip(err.Error(), 120))
 			c.EndCase(mi)
 			continue
+		}
+		// the requests parsed first have been held while the later ones were parsed (as the pusher goroutines hold
+		// them while other pushes are parsed): each must still be the tree of ITS profile
+		for d, m := range ms.members {
+			for _, f := range judgeStored(&m.pc, m.multiLine, m.pd).findings {
+				c.Violation("held-request-changed/"+f.Sig+"/"+protoShort(m.proto), fmt.Sprintf("multiset %d: the request parsed for member %d no longer matches its profile after the %d later members were parsed: %s", mi, d, len(ms.members)-1-d, f.Desc),
+					map[string]any{"multiset_index": mi, "member": d})
+				break
+			}
+			c.Floor("parsed requests re-examined after later profiles were parsed", 0, 1)
 		}
 		size, k := len(ms.order), len(ms.members)
 		repeated := size > k
